@@ -69,12 +69,12 @@ theorem nodeInfoAgg_fields (clean : Str → Str) (p : Profile) (o : GOpts) (f : 
     (f.linenumber = false → ni.lineno = 0 ∧ ni.columnno = 0) ∧
     (f.columnnumber = false → ni.columnno = 0) ∧
     (f.filename = false → ni.file = []) ∧
-    (f.function = false → ni.name = [] ∧ ni.origName = []) := by
+    (f.function = false → ni.name = [] ∧ ni.origName = [] ∧ ni.startLine = 0) := by
   unfold nodeInfoAgg at h
   by_cases h0 : ln.functionID = 0
   · simp only [h0, if_true, Option.some.injEq] at h
     subst h
-    refine ⟨fun ha => by simp [ha], fun _ => ⟨rfl, rfl⟩, fun _ => rfl, fun _ => rfl, fun _ => ⟨rfl, rfl⟩⟩
+    refine ⟨fun ha => by simp [ha], fun _ => ⟨rfl, rfl⟩, fun _ => rfl, fun _ => rfl, fun _ => ⟨rfl, rfl, rfl⟩⟩
   · simp only [h0, if_false] at h
     cases hf : p.findFunction ln.functionID with
     | none => simp [hf] at h
